@@ -276,9 +276,11 @@ impl UnverifiedBiscuit {
             .map_err(error::Token::Format)?
         };
 
-        // we have to add the entire list of public keys here because
-        // they are used to validate 3rd party tokens
-        block.symbols.public_keys = self.symbols.public_keys.clone();
+        // first-party blocks refer to the token-wide list of public keys;
+        // a third-party block has its own table, which must not be replaced
+        if block.external_key.is_none() {
+            block.symbols.public_keys = self.symbols.public_keys.clone();
+        }
         Ok(block)
     }
 
